@@ -82,32 +82,51 @@ def ingest(prop, outdir, ns):
             shutil.rmtree(d, ignore_errors=True)
 
 
-def run(ids, checks):
+def run_one(job):
+    sid, checks, nworkers = job
+    meta = json.load(open(os.path.join(SEEDED, sid, "meta.json")))
+    cks = checks or [meta["property"]]
+    d = scratch()
+    out = {}
+    lines = []
+    try:
+        ok, msg = apply(d, os.path.join(SEEDED, sid, "patch.diff"))
+        if not ok:
+            lines.append("%s STALE (patch no longer applies)" % sid)
+            return sid, {"stale": True}, lines
+        for ck in cks:
+            cmd = [os.path.join(HERE, "check"), ck, "--repo", d] + (["--workers", str(nworkers)] if nworkers else [])
+            r = subprocess.run(cmd, capture_output=True, text=True, env=dict(os.environ))
+            sigs = [l.strip().replace("signature: ", "") for l in r.stdout.splitlines() if l.strip().startswith("signature:")]
+            status = "CAUGHT" if r.returncode == 1 and "VIOLATION" in r.stdout else ("MISSED" if r.returncode == 0 else "ERROR rc=%d" % r.returncode)
+            lines.append("%-8s %-10s by %s  %s" % (status, sid, ck, "; ".join(sigs[:2])[:160]))
+            if status.startswith("ERROR"):
+                lines.append(r.stdout[-500:] + r.stderr[-500:])
+            out[ck] = {"status": status, "signatures": sigs[:5]}
+    finally:
+        shutil.rmtree(d, ignore_errors=True)
+    return sid, out, lines
+
+
+def run(ids, checks, jobs=1):
+    from concurrent.futures import ThreadPoolExecutor
+
     res_path = os.path.join(SEEDED, "RESULTS.json")
-    results = json.load(open(res_path)) if os.path.exists(res_path) else {}
     ids = ids or sorted(x for x in os.listdir(SEEDED) if os.path.isdir(os.path.join(SEEDED, x)))
-    for sid in ids:
-        meta = json.load(open(os.path.join(SEEDED, sid, "meta.json")))
-        cks = checks or [meta["property"]]
-        d = scratch()
-        try:
-            ok, msg = apply(d, os.path.join(SEEDED, sid, "patch.diff"))
-            if not ok:
-                print(sid, "STALE (patch no longer applies)")
-                results.setdefault(sid, {})["stale"] = True
-                continue
-            for ck in cks:
-                env = dict(os.environ)
-                r = subprocess.run([os.path.join(HERE, "check"), ck, "--repo", d], capture_output=True, text=True, env=env)
-                sigs = [l.strip().replace("signature: ", "") for l in r.stdout.splitlines() if l.strip().startswith("signature:")]
-                status = "CAUGHT" if r.returncode == 1 and "VIOLATION" in r.stdout else ("MISSED" if r.returncode == 0 else "ERROR rc=%d" % r.returncode)
-                print("%-8s %-10s by %s  %s" % (status, sid, ck, "; ".join(sigs[:2])[:160]))
-                if status.startswith("ERROR"):
-                    print(r.stdout[-500:], r.stderr[-500:])
-                results.setdefault(sid, {})[ck] = {"status": status, "signatures": sigs[:5]}
-        finally:
-            shutil.rmtree(d, ignore_errors=True)
-    json.dump(results, open(res_path, "w"), indent=1, sort_keys=True)
+    results = {}
+    with ThreadPoolExecutor(jobs) as ex:
+        for sid, out, lines in ex.map(run_one, [(sid, checks, (max(2, 16 // jobs) if jobs > 1 else None)) for sid in ids]):
+            results[sid] = out
+            print("\n".join(lines), flush=True)
+    # merge with what other runs wrote in the meantime (only the ids of this run are replaced / extended)
+    latest = json.load(open(res_path)) if os.path.exists(res_path) else {}
+    for sid, out in results.items():
+        if out.get("stale"):
+            latest.setdefault(sid, {})["stale"] = True
+        else:
+            latest.setdefault(sid, {}).pop("stale", None)
+            latest[sid].update(out)
+    json.dump(latest, open(res_path, "w"), indent=1, sort_keys=True)
 
 
 if __name__ == "__main__":
@@ -122,4 +141,9 @@ if __name__ == "__main__":
             i = args.index("--checks")
             checks = args[i + 1].split(",")
             args = args[:i] + args[i + 2:]
-        run(args, checks)
+        jobs = 1
+        if "-j" in args:
+            i = args.index("-j")
+            jobs = int(args[i + 1])
+            args = args[:i] + args[i + 2:]
+        run(args, checks, jobs)
